@@ -29,20 +29,22 @@ RULE = ('states = distinct canonical states reached by operation sequences up to
 LEVEL_TEXT = 'Every operation sequence up to the depth bound (with state de-duplication) on each listed crystal; results compared with a fresh calculator bit-for-bit when the GF path is identical, to 1e-9 otherwise.'
 LEVEL_NOTE = 'canon merges states with identical Nthermo, NGFmax, cache contents (bytes), last-result bytes and aliasing pattern: Lij reads nothing else that is mutable.'
 
+THOROUGH_HASHSEEDS = ['0']      # one pass of the depth-4 search takes ~35 min; the state space does not depend on set iteration order
 OPS = ['L:a', 'L:b', 'L:c', 'L:x', 'scribble', 'clear', 'gf:same', 'gf:other', 'regen:1', 'regen:2', 'saveload', 'foreign']
 CONFIGS = {'FCC': ('FCC', 0), 'HONEY2': ('HONEY', 1), 'RECTM': ('RECTM', 0), 'HCP': ('HCP', 0), 'SQUARE': ('SQUARE', 0), 'ROMEGA': ('ROMEGA', 0)}
 
 
 def BOUNDS(tier):
-    return {'crystals': ['FCC', 'HONEY2 (honeycomb, 2 jump types)', 'RECTM (origin states)'] if tier == 'quick' else list(CONFIGS), 'depth': 3 if tier == 'quick' else 5, 'ops': OPS,
+    return {'crystals': ['FCC', 'HONEY2 (honeycomb, 2 jump types)', 'RECTM (origin states)'] if tier == 'quick' else list(CONFIGS), 'depth': '3' if tier == 'quick' else '4 on FCC, HONEY2, RECTM; 3 on HCP, SQUARE, ROMEGA (one interpreter hash seed)', 'ops': OPS,
             'inputs': 'a = base G1, b = G1 with one solute-vacancy class shifted by +ln3 (same vacancy data), c = base G2, x = a with every exchange barrier lowered by 30 (large-omega2 algorithm, same vacancy data)', 'NGFmax': [4, 6]}
 
 
 def cases(tier):
     names = ['FCC', 'HONEY2', 'RECTM'] if tier == 'quick' else list(CONFIGS)   # RECTM: origin states   # HONEY2: two jump types (the GF pole cutoff depends on the input)
-    depth = 3 if tier == 'quick' else 5
+    depth = 3 if tier == 'quick' else 4
+    deep = ('FCC', 'HONEY2', 'RECTM')
     # the BFS of one crystal is split by its first operation to use the pool
-    return [{'key': '{}/first={}'.format(n, op), 'config': n, 'first': op, 'depth': depth, 'cost': 3 if op.startswith('regen') else 1} for n in names for op in OPS]
+    return [{'key': '{}/first={}'.format(n, op), 'config': n, 'first': op, 'depth': depth if (tier == 'quick' or n in deep) else 3, 'cost': 3 if op.startswith('regen') else 1} for n in names for op in OPS]
 
 
 _FRESH = {}
